@@ -266,6 +266,139 @@ def h_roundtrip(I):
     return out
 
 
+# ---------------------------------------------------------------- PSS/E v33 record parsers
+class PsseSys:
+    """System stand-in for the PSS/E record parsers: bus table with symbolic nominal voltages / voltage guesses"""
+
+    def __init__(self, I, buses, mva):
+        self.config = NS(mva=mva)
+        self._vn = {b: I.real(f'Vn_bus{b}') for b in buses}
+        self._v0 = {b: I.real(f'v0_bus{b}') for b in buses}
+        for v in self._vn.values():
+            I.assume(LT(0, v))
+        self.Bus = NS(get=self._get, idx=NS(v=list(buses)))
+
+    def _get(self, src, idx, attr='v'):
+        if src == 'Vn':
+            return self._vn[idx]
+        if src == 'v0':
+            return self._v0[idx]
+        return 1
+
+
+def _psse(fname, **extra):
+    import andes.io.psse as PS
+    f = getattr(PS, fname)
+    return pysym.rebind(f, _add_devices_from_dict=lambda out, system: None, logger=NS(warning=lambda *a, **k: None, debug=lambda *a, **k: None,
+                                                                                     info=lambda *a, **k: None), **extra)
+
+
+def h_psse_branch(I):
+    mva = I.real('SBASE'); I.assume(LT(0, mva))
+    ss = PsseSys(I, [1, 2], mva)
+    row = [1, 2, '1 '] + [I.real(n) for n in ('R', 'X', 'B', 'RATEA', 'RATEB', 'RATEC', 'GI', 'BI', 'GJ', 'BJ')] + [1, 0.0, 1, 1.0]
+    out = _psse('_parse_line_v33')({'branch': [row]}, ss)
+    d = out['Line'][0]
+    vb = ss._vn[1]
+    res = [('branch: end buses and status', d['bus1'] == 1 and d['bus2'] == 2 and d['u'] == 1)]
+    for k, col in (('r', 3), ('x', 4), ('b', 5)):
+        res.append((f'branch: {k} on the SYSTEM base equals the per-unit value of the record',
+                    EQ(sys_value('Line', d, k, None, vb, mva), row[col])))
+    for k, col in (('g1', 9), ('b1', 10), ('g2', 11), ('b2', 12)):
+        res.append((f'branch: line-end shunt {k} of the record is kept (system base)',
+                    EQ((d.get(k, 0.0) / ((d['Vn1'] * d['Vn1'] / d.get('Sn', _DEF['Line.Sn'])) / (vb * vb / mva))), row[col])))
+    return res
+
+
+def h_psse_load_shunt_gen(I):
+    mva = I.real('SBASE'); I.assume(LT(0, mva))
+    ss = PsseSys(I, [1, 2], mva)
+    DEGs, _ = angle_units(I)
+    load = [1, '1 ', 1, 1, 1] + [I.real(n) for n in ('PL', 'QL', 'IP', 'IQ', 'YP', 'YQ')] + [1, 1]
+    o = _psse('_parse_load_v33')({'load': [load]}, ss)['PQ'][0]
+    v0 = ss._v0[1]
+    res = [('load: bus, status, constant-power + constant-current + constant-admittance parts at the initial voltage, in p.u. of SBASE',
+            AND(o['bus'] == 1, o['u'] == 1, EQ(o['p0'] * mva, load[5] + load[7] * v0 + load[9] * v0 * v0),
+                EQ(o['q0'] * mva, load[6] + load[8] * v0 - load[10] * v0 * v0)))]
+    fs = [2, '1 ', 1, I.real('GL'), I.real('BL')]
+    s = _psse('_parse_fshunt_v33')({'fshunt': [fs]}, ss)['Shunt'][0]
+    vb = ss._vn[2]
+    res.append(('fixed shunt: bus, status, MW/MVAr at 1 p.u. reproduced on the system base',
+                AND(s['bus'] == 2, s['u'] == 1, EQ(sys_value('Shunt', s, 'g', None, vb, mva) * mva, fs[3]),
+                    EQ(sys_value('Shunt', s, 'b', None, vb, mva) * mva, fs[4]))))
+    gen = [1, '1 '] + [I.real(n) for n in ('PG', 'QG', 'QT', 'QB', 'VS')] + [0, I.real('MBASE'), I.real('ZR'), I.real('ZX'), 0.0, 0.0, 1.0, 1, 100.0,
+                                                                               I.real('PT'), I.real('PB')] + [1, 1.0] + [0] * 8
+    a0 = I.real('slack_angle')
+    for is_slack in (True, False):
+        g = _psse('_parse_gen_v33')({'gen': [gen]}, ss, {1: a0} if is_slack else {})
+        kind = 'Slack' if is_slack else 'PV'
+        ok = len(g[kind]) == 1 and len(g['PV' if is_slack else 'Slack']) == 0
+        res.append((f'generator on {"the swing" if is_slack else "an ordinary"} bus becomes a {kind}', ok))
+        if ok:
+            d = g[kind][0]
+            res.append((f'{kind}: bus, status, machine base, powers and limits in p.u. of SBASE, voltage set-point',
+                        AND(d['bus'] == 1, d['u'] == 1, EQ(d['Sn'], gen[8], tol=0.0), EQ(d['p0'] * mva, gen[2]), EQ(d['q0'] * mva, gen[3]),
+                            EQ(d['qmax'] * mva, gen[4]), EQ(d['qmin'] * mva, gen[5]), EQ(d['v0'], gen[6], tol=0.0),
+                            EQ(d['pmax'] * mva, gen[16]), EQ(d['pmin'] * mva, gen[17]))))
+            if is_slack:
+                res.append(('Slack: reference angle is the swing-bus angle', EQ(d['a0'], a0, tol=0.0)))
+    return res
+
+
+def h_psse_transf2(cw, cz):
+    def h(I):
+        mva = I.real('SBASE'); I.assume(LT(0, mva))
+        ss = PsseSys(I, [1, 2], mva)
+        DEGs, _ = angle_units(I)
+        r0 = [1, 2, 0, '1 ', cw, cz, 1, I.real('MAG1'), I.real('MAG2'), 2, 'T', 1, 1, 1.0]
+        r1 = [I.real('R12'), I.real('X12'), I.real('SBASE12')]
+        r2 = [I.real('WINDV1'), I.real('NOMV1'), I.real('ANG1'), I.real('RATA'), I.real('RATB'), I.real('RATC')] + [0] * 10
+        r3 = [I.real('WINDV2'), I.real('NOMV2')]
+        I.assume(LT(0, r1[2])); I.assume(LT(0, r2[0])); I.assume(LT(0, r3[0])); I.assume(LE(0, r2[1])); I.assume(LE(0, r3[1]))
+        if cw in (1, 3):
+            I.assume(EQ(r3[0], 1, tol=0.0))        # winding-2 ratio at nominal (the usual data); see `outside the claim`
+        out, cnt = _psse('_parse_transf_v33', deg2rad=DEGs)({'transf': [[r0, r1, r2, r3]]}, ss, 2)
+        d = out['Line'][0]
+        vb1, vb2 = ss._vn[1], ss._vn[2]
+        vn1 = ITE(EQ(r2[1], 0, tol=0.0), vb1, r2[1])
+        vn2 = ITE(EQ(r3[1], 0, tol=0.0), vb2, r3[1])
+        tap = {1: r2[0], 2: (r2[0] / vb1) / (r3[0] / vb2), 3: r2[0] * (vn1 / vb1) / (vn2 / vb2)}[cw]
+        return [('two-winding: buses, status, magnetising susceptance', AND(d['bus1'] == 1, d['bus2'] == 2, d['u'] == 1, EQ(d['b'], r0[8], tol=0.0))),
+                ('two-winding: r, x and the base they are given on (CZ)', AND(EQ(d['r'], r1[0], tol=0.0), EQ(d['x'], r1[1], tol=0.0),
+                                                                               EQ(d['Sn'], mva if cz == 1 else r1[2], tol=0.0))),
+                ('two-winding: nominal voltages (bus value when 0)', AND(EQ(d['Vn1'], vn1), EQ(d['Vn2'], vn2))),
+                ('two-winding: off-nominal ratio for the winding code (CW)', EQ(d['tap'], tap)),
+                ('two-winding: phase shift ANG1 in radians', EQ(d['phi'], r2[2] * DEGs))]
+    return h
+
+
+def h_psse_transf3(I):
+    mva = I.real('SBASE'); I.assume(LT(0, mva))
+    ss = PsseSys(I, [1, 2, 3], mva)
+    DEGs, _ = angle_units(I)
+    r0 = [1, 2, 3, '1 ', 1, 1, 1, I.real('MAG1'), I.real('MAG2'), 2, 'T', 1, 1, 1.0]
+    r1 = [I.real(n) for n in ('R12', 'X12', 'S12', 'R23', 'X23', 'S23', 'R31', 'X31', 'S31', 'VMSTAR', 'ANSTAR')]
+    w = [[I.real(f'WINDV{i}'), I.real(f'NOMV{i}'), I.real(f'ANG{i}')] + [0] * 13 for i in (1, 2, 3)]
+    out, cnt = _psse('_parse_transf_v33', deg2rad=DEGs)({'transf': [[r0, r1] + w]}, ss, 3)
+    lines, buses = out['Line'], out['Bus']
+    res = [('three-winding: one star bus and three branches', len(buses) == 1 and len(lines) == 3)]
+    if len(buses) == 1 and len(lines) == 3:
+        star = buses[0]['idx']
+        res.append(('three-winding: star bus is a new bus with the given star voltage and angle',
+                    AND(star not in (1, 2, 3), EQ(buses[0]['v0'], r1[9], tol=0.0), EQ(buses[0]['a0'], r1[10] * DEGs))))
+        R = {'12': r1[0], '23': r1[3], '31': r1[6]}
+        X = {'12': r1[1], '23': r1[4], '31': r1[7]}
+        star_r = [(R['12'] + R['31'] - R['23']) / 2, (R['23'] + R['12'] - R['31']) / 2, (R['31'] + R['23'] - R['12']) / 2]
+        star_x = [(X['12'] + X['31'] - X['23']) / 2, (X['23'] + X['12'] - X['31']) / 2, (X['31'] + X['23'] - X['12']) / 2]
+        for i in range(3):
+            d = lines[i]
+            res.append((f'three-winding: branch {i + 1} joins winding bus {i + 1} to the star bus', d['bus1'] == i + 1 and d['bus2'] == star))
+            res.append((f'three-winding: branch {i + 1} carries the star-equivalent impedance', AND(EQ(d['r'], star_r[i]), EQ(d['x'], star_x[i]))))
+            res.append((f'three-winding: branch {i + 1} has the ratio and phase shift of ITS OWN winding',
+                        AND(EQ(d['tap'], w[i][0], tol=0.0), EQ(d['phi'], w[i][2] * DEGs))))
+    return res
+
+
 def job(spec):
     import logging
     logging.getLogger('andes').setLevel(60)
@@ -281,6 +414,14 @@ def job(spec):
         return H.run('system2mpc', h_system2mpc, max_paths=4000, region=lambda v, c: c.split(':')[-1].strip() if c.startswith('bus row') else c)
     if kind == 'rt':
         return H.run('mpc -> system -> mpc', h_roundtrip, max_paths=4000, region=lambda v, c: c)
+    if kind == 'pbranch':
+        return H.run('psse _parse_line_v33', h_psse_branch, region=lambda v, c: c)
+    if kind == 'plsg':
+        return H.run('psse _parse_load/fshunt/gen_v33', h_psse_load_shunt_gen, region=lambda v, c: c)
+    if kind == 'pt2':
+        return H.run(f'psse _parse_transf_v33 two-winding [CW={arg[0]},CZ={arg[1]}]', h_psse_transf2(*arg), region=lambda v, c: c)
+    if kind == 'pt3':
+        return H.run('psse _parse_transf_v33 three-winding', h_psse_transf3, region=lambda v, c: c.split(' branch')[0] if 'branch' in c else c)
 
 
 def main():
@@ -290,14 +431,17 @@ def main():
                     'type => slack/PV, non-zero demand/shunt => load/shunt); real system2mpc on stub systems with symbolic values: bus rows hold '
                     'the sum of the in-service loads/shunts of a bus; round trip identity on supported columns.')
     import andes.io.matpower as MP
-    ck.encodes(MP.mpc2system, MP.system2mpc, MP._get_bus_id_caller)
+    import andes.io.psse as PS
+    ck.encodes(MP.mpc2system, MP.system2mpc, MP._get_bus_id_caller, PS._parse_line_v33, PS._parse_load_v33, PS._parse_fshunt_v33,
+               PS._parse_gen_v33, PS._parse_transf_v33)
     ck.bound(rows='one record of each type per query; 2 buses / 3 loads / 2 shunts in system2mpc', values='all reals, bases > 0')
     ck.stub('System.add -> recorder; Bus look-ups served from the recorded buses', 'numpy.zeros allocates object arrays in exploration (system2mpc)',
             'bus-id mapping is the identity (integer indices)')
     ck.assume('device values are converted to the system base by the textbook ratio (C11)', 'deg2rad and rad2deg are exact inverses (their binary64 values differ from that by rounding only)')
     ck.out('reading/writing xlsx, json, raw and dyr FILES (pandas, openpyxl, text->float, yaml) -- not encodable',
-           'PSS/E record parsers', 'area/zone columns (documented as unsupported by system2mpc)')
-    jobs = [('bus', t) for t in (1, 3)] + [('gen', (t, s)) for t in (2, 3) for s in (1, 0)] + [('branch', s) for s in (1, 0)] + [('s2m', 0), ('rt', 0)]
+           'PSS/E: winding-2 off-nominal ratio for CW = 1/3 (assumed 1), impedance code CZ = 3, admittance code CM = 2, switched shunts, dyr files',
+           'area/zone columns (documented as unsupported by system2mpc)')
+    jobs = [('pbranch', 0), ('plsg', 0), ('pt3', 0)] + [('pt2', (cw, cz)) for cw in (1, 2, 3) for cz in (1, 2)] + [('bus', t) for t in (1, 3)] + [('gen', (t, s)) for t in (2, 3) for s in (1, 0)] + [('branch', s) for s in (1, 0)] + [('s2m', 0), ('rt', 0)]
     ck.merge(core.pmap(job, jobs))
     ck.sample({'branch row': '[1, 2, r, x, b, rateA, rateB, rateC, ratio, angle, status, ...] with symbolic numbers'})
     ck.finish()
